@@ -3,8 +3,8 @@
    (None = leaf unchanged, Some p = leaf replaced by p).
 
    Specification (C15's statement applied to them): the rebuilt predicate has the value of the original formula
-   with every replaced leaf substituted.  apply_logical_or / apply_logical_and meet it; apply_logical_not does
-   NOT: it ignores the replacement and negates the ORIGINAL leaf (`apply_not_refuted`). *)
+   with every replaced leaf substituted.  All three meet it since /repo 33efa74; before that commit apply_logical_not
+   ignored the replacement and negated the ORIGINAL leaf (`apply_not_refuted_without_fix`, on the old body). *)
 From Coq Require Import NArith List Bool Lia.
 From V Require Import Base.Tri Model.Pred Gen.PredGen Gen.PredVisitGen Proofs.PredProofs.
 Import ListNotations.
@@ -81,23 +81,31 @@ Qed.
 Lemma apply_not_none_p : forall a, py_apply_logical_not a None = None.
 Proof. reflexivity. Qed.
 
-(* what it does: NOT of the ORIGINAL leaf, whatever the replacement is *)
-Lemma apply_not_actual_p : forall v a r r', py_apply_logical_not a (Some r) = Some r' -> eval3 v r' = tri_not (v a).
+(* repaired by /repo 33efa74: the REPLACEMENT is negated *)
+Lemma apply_not_sound_p : forall v a r r', py_apply_logical_not a (Some r) = Some r' ->
+  eval3 v r' = tri_not (eval3 v r).
 Proof.
   intros v a r r' H. unfold py_apply_logical_not in H. apply some_inj in H; subst.
-  rewrite logical_not_sound_p. unfold py_from_leaf. now rewrite eval3_single.
+  apply logical_not_sound_p.
 Qed.
 
-(* so it meets the specification only when the replacement is equivalent to the original leaf *)
-Lemma apply_not_sound_partial_p : forall v a r r', py_apply_logical_not a (Some r) = Some r' ->
-  eval3 v r = v a -> eval3 v r' = tri_not (eval3 v r).
-Proof. intros v a r r' H E. rewrite E. eapply apply_not_actual_p; eauto. Qed.
+(* the body before 33efa74 (`return Predicate._from_leaf(original).logical_not()`: NOT of the ORIGINAL leaf whatever the
+   replacement is), kept as a model variant so that the witness of the repaired defect stays machine-checked *)
+Definition apply_logical_not_unfixed (original : atom) (result : option cnf) : option cnf :=
+  match result with
+  | None => None
+  | Some _ => Some (py_logical_not (py_from_leaf (Pos original)))
+  end.
 
-(* and not in general: visiting NOT(x0) with x0 replaced by TRUE gives NOT(x0), which is TRUE when x0 is FALSE,
-   while NOT(TRUE) is FALSE *)
-Lemma apply_not_refuted_p : exists v a r r',
-  py_apply_logical_not a (Some r) = Some r' /\ eval3 v r' <> tri_not (eval3 v r).
+(* visiting NOT(x0) with x0 replaced by TRUE gave NOT(x0), which is TRUE when x0 is FALSE, while NOT(TRUE) is FALSE *)
+Lemma apply_not_refuted_without_fix_p : exists v a r r',
+  apply_logical_not_unfixed a (Some r) = Some r' /\ eval3 v r' <> tri_not (eval3 v r).
 Proof.
   exists (fun _ => FF), 0%N, (py_from_bool true), [[Neg 0%N]]. split; [vm_compute; reflexivity|].
   vm_compute. discriminate.
 Qed.
+
+(* and the repaired body differs from it on exactly that input *)
+Lemma apply_not_fix_differs_p : exists a r,
+  py_apply_logical_not a (Some r) <> apply_logical_not_unfixed a (Some r).
+Proof. exists 0%N, (py_from_bool true). vm_compute. discriminate. Qed.
